@@ -30,6 +30,7 @@ def main():
     ap.add_argument("--src", default=None)
     ap.add_argument("--props", default="all")
     ap.add_argument("--keep", action="store_true")
+    ap.add_argument("--fast", action="store_true", help="other properties' checks at 1200 runs only")
     ap.add_argument("--name", default=None)
     ap.add_argument("--wt", default="/tmp/mut-%s")
     a = ap.parse_args()
@@ -65,8 +66,10 @@ def main():
         for p in props:
             t0 = time.time()
             env = dict(os.environ, VERIF_REPO=wt, VERIF_STOP_FIRST="1")
-            rr = subprocess.run([sys.executable, os.path.join(VERIF, "check.py"), "--property", p, "--tier", "quick",
-                                 "--no-evidence"], env=env, capture_output=True, text=True, cwd=VERIF)
+            cmdl = [sys.executable, os.path.join(VERIF, "check.py"), "--property", p, "--tier", "quick", "--no-evidence"]
+            if a.fast and p != a.id:
+                cmdl += ["--runs", "1200" if p not in ("C10", "C19", "C20", "C04") else "300"]
+            rr = subprocess.run(cmdl, env=env, capture_output=True, text=True, cwd=VERIF)
             lines = [l for l in rr.stdout.splitlines() if l.startswith(("VIOLATION", "  clause", "HARNESS"))]
             if rr.returncode == 1:
                 caught.append(p)
@@ -102,6 +105,7 @@ def main():
                              "PYTHONPATH=<wt>/src /venv/bin/python -m pytest -q -p no:cacheprovider --timeout=900",
                              "/venv/bin/python demo.py <wt>/src", "VERIF_REPO=<wt> check.py --property <each> --tier quick"]}
             meta["caught_by_checks"] = caught
+            meta["other_checks_run_at"] = "1200 runs (300 for C04/C10/C19/C20)" if a.fast else "full quick tier"
             meta["check_details"] = details
             json.dump(meta, open(os.path.join(dst, "meta.json"), "w"), indent=1)
             print("kept as %s" % dst)
